@@ -7,7 +7,7 @@ use std::sync::{Arc, Mutex};
 use verif_harness::util::{catch, quiet_panics, CaseStream, Results, Rng};
 use verif_harness::workspace;
 
-const PRELUDE: &str = "pub type T { T(a: Int, b: String) }\npub type Box(x) { Box(inner: x) }\nfn id(x) { x }\nfn apply(x: a, f: fn(a) -> b) -> b { f(x) }\nfn map(l: List(a), f: fn(a) -> b) -> List(b) { case l { [] -> [] [h, ..t] -> [f(h), ..map(t, f)] } }\nfn add(a: Int, b: Int) -> Int { a + b }\nfn mk_ok(x: a, e: b) -> Result(a, b) { Ok(x) }\nfn mk_err(x: a, e: b) -> Result(a, b) { Error(e) }\npub type M { M(Int, key: String, value: Float) }\nfn wrap(item) { item }\nfn item() { wrap(1) }\npub type Fx(r) { Fx(run: fn(Int) -> r) }\n";
+const PRELUDE: &str = "pub type T { T(a: Int, b: String) }\npub type Box(x) { Box(inner: x) }\nfn id(x) { x }\nfn apply(x: a, f: fn(a) -> b) -> b { f(x) }\nfn map(l: List(a), f: fn(a) -> b) -> List(b) { case l { [] -> [] [h, ..t] -> [f(h), ..map(t, f)] } }\nfn add(a: Int, b: Int) -> Int { a + b }\nfn mk_ok(x: a, e: b) -> Result(a, b) { Ok(x) }\nfn mk_err(x: a, e: b) -> Result(a, b) { Error(e) }\npub type M { M(Int, key: String, value: Float) }\nfn wrap(item) { item }\nfn item() { wrap(1) }\npub type Fx(r) { Fx(run: fn(Int) -> r) }\nfn ping(value, count) { let boxed = #(value, []) case count { 0 -> value _ -> pong(value, count - 1) } }\nfn pong(item, left) { let wrapped = #(item, []) case left { 0 -> item _ -> ping(item, left - 1) } }\n";
 /// the library module `pal`, imported by the generated module and used qualified
 const HEADER: &str = "import pal.{Shade}\n";
 const HUE: &str = "import base\npub fn h() { base.z() }\n";
@@ -162,7 +162,11 @@ fn main() {
             let prelude_at = if prelude_first { HEADER.len() } else { text.len() };
             if !prelude_first { text.push_str(PRELUDE); }
             for (name, sig) in prelude_sigs.iter() {
-                let off = PRELUDE.find(&format!("fn {name}(")).expect("prelude function") + 3;
+                // a function `name` of the prelude, or - "let name" - a binder inside one of them
+                let off = match name.strip_prefix("let ") {
+                    Some(b) => PRELUDE.find(&format!("let {b} ")).expect("prelude binder") + 4,
+                    None => PRELUDE.find(&format!("fn {name}(")).expect("prelude function") + 3,
+                };
                 probes.push((prelude_at + off, name.clone(), "prelude_fun".to_string(), sig.clone()));
             }
             let mut local = vec![];
@@ -194,7 +198,7 @@ fn main() {
                         let exp: Option<&str> = if is_def || is_label || is_field { None }
                             else if s == "pal" && next == "." { Some("Module") }
                             else if qualified { if first.is_ascii_uppercase() { Some("Constructor") } else { Some("Function") } }
-                            else if ["id", "apply", "map", "add", "mk_ok", "mk_err", "wrap"].contains(&s.as_str()) || (s.len() > 1 && s.starts_with('g') && s[1..].chars().all(|c| c.is_ascii_digit())) { Some("Function") }
+                            else if ["id", "apply", "map", "add", "mk_ok", "mk_err", "wrap", "ping", "pong"].contains(&s.as_str()) || (s.len() > 1 && s.starts_with('g') && s[1..].chars().all(|c| c.is_ascii_digit())) { Some("Function") }
                             else if s == "T" || s == "Box" || s == "M" || s == "Fx" || s == "Shade" { Some("Constructor") }
                             else if let Some(ty) = binder_ty.get(s.as_str()) { if ty.starts_with("fn(") { Some("Function") } else { None } }
                             else { None };
